@@ -112,6 +112,12 @@ def scenarios(tier, seed, ks=None):
             add(K, thr_of(n), [esis2[:K - 2], esis2[K - 2:]], "two batches, the second reaches the no-HDPC fast path"); n += 1
             add(K, thr_of(n), [rep(K + p.H + 2, start=3)], "repair-only batch on the no-HDPC fast path"); n += 1
             add(K, thr_of(n), [[e for e in src if e != K // 2] + [(1 << 24) - 1 - i for i in range(p.H + 2)]], "no-HDPC fast path with the largest ESIs"); n += 1
+        # g) ESIs that alias under truncation: equal low 16 / low 8 bits, strides of 2^16 and 2^8 (+ a source symbol with the same low bits)
+        for stride in (1 << 16, 1 << 8):
+            esis = src[:1] + [stride * (j + 1) for j in range(K + 1)]
+            add(K, thr_of(n), esis, "repair ESIs in strides of %d aliasing a source ESI under truncation" % stride); n += 1
+            esis = [K + 3 + stride * j for j in range(K + 2)]
+            add(K, thr_of(n), esis, "repair ESIs congruent modulo %d" % stride); n += 1
         # f) duplicates and all-source completion
         esis = rep(2) + src[:K - 1] + [src[0]] + rep(1) + [src[K - 1]]
         add(K, thr_of(n), esis, "duplicates; completion by the last source symbol"); n += 1
